@@ -41,6 +41,19 @@ Theorem ids_pairwise_distinct :
 Proof. exact ids_pairwise_distinct_lemma. Qed.
 Print Assumptions ids_pairwise_distinct.
 
+(** The other direction, with NO hypothesis on transaction hashes: however the creations are
+    spread over transactions - all in one, or all OUTSIDE any transaction (messages executed by a
+    passed proposal share the hash of the empty tx bytes), or loaded by InitGenesis - as long as the
+    whole history creates at most 2^32 records, the counter alone keeps their ids pairwise distinct.
+    (This is the situation of the streams `notx`, `bulk` and `genesis`.) *)
+Theorem ids_distinct_by_counter :
+  forall (steps : list step) (s : state),
+    0 <= counter s < two32 ->
+    Z.of_nat (length (created s steps)) <= two32 ->
+    NoDup (map fst (created s steps)).
+Proof. exact ids_distinct_by_counter_lemma. Qed.
+Print Assumptions ids_distinct_by_counter.
+
 (** The decidable predicates that the correspondence check evaluates on the IMPLEMENTATION's
     observations (model agreement, read-back of every id ever returned, no id returned twice)
     hold of the MODEL's own trace for every guarded history: the checker answers (-1, -1). *)
